@@ -8,8 +8,8 @@
      F        = the value of its MsgSeqNum FIELD (the first token whose tag is 34),
      PossDup  = PossDupFlag (43) is Y,  Orig/Sending = OrigSendingTime (122) / SendingTime (52),
      CompIDs  = SenderCompID (49) / TargetCompID (56) against the session identity,
-     decodable= 8,9,35 lead, the type is known, every mandatory header and body field is present and
-                the CheckSum is right,
+     decodable= 8,9,35 lead, the type is known, no tag occurs twice, every mandatory header and body
+                field is present and the CheckSum is right,
    and at what the session did while it processed that message (the events up to the `RET` of
    Session::process): DELIVER (handle_application passed the message to the router), the messages it
    put on the wire, the return value.  E = the expected number = next_recv of the previous snapshot.
@@ -57,11 +57,18 @@ Definition chk_ok (raw : bytes) : bool :=
   | _ => false
   end.
 
+(* no tag twice (the generators send no repeating groups) *)
+Fixpoint nodup_tags (toks : list (bytes * bytes)) : bool :=
+  match toks with
+  | [] => true
+  | (t, _) :: r => negb (existsb (fun tv => beq (fst tv) t) r) && nodup_tags r
+  end.
+
 Definition decodable (sc : schema) (raw : bytes) : bool :=
   let toks := tokens raw in
   match toks with
   | (t8, _) :: (t9, _) :: (t35, mt) :: _ =>
-    beq t8 [56] && beq t9 [57] && beq t35 [51; 53] &&
+    beq t8 [56] && beq t9 [57] && beq t35 [51; 53] && nodup_tags toks &&
     match find_def mt (sc_msgs sc) with
     | Some d => forallb (fun t => has t toks) (sc_hdr_mand sc) && forallb (fun t => has t toks) (d_mand d)
     | None => false
